@@ -16,6 +16,7 @@ import (
 	"os"
 	"os/exec"
 	"path/filepath"
+	"reflect"
 	"strings"
 	"sync"
 	"time"
@@ -864,7 +865,7 @@ func (c call) run() string {
 		var out []byte
 		var err error
 		st := guarded(func() { out, err = c.patch.ApplyIndentWithOptions(c.a, c.opt.indent, c.opt.mk()) })
-		return st + ":" + errBits(err) + ":" + hx(out)
+		return st + ":" + errBits(err) + b2s(err != nil) + ":" + hx(out)
 	case "equal":
 		var r bool
 		st := guarded(func() { r = jsonpatch.Equal(c.a, c.b) })
@@ -982,6 +983,25 @@ func sameSnap(a, b [][]byte) bool {
 	return true
 }
 
+// sameResult: two observations of one call.  C09/C10 demand the same bytes for Apply, ApplyIndent,
+// CreateMergePatch and Equal, and the same JSON value (member order free) for MergePatch and
+// MergeMergePatches, whose new members are appended in Go map iteration order.
+func sameResult(kind, r1, r2 string) bool {
+	if r1 == r2 {
+		return true
+	}
+	if kind != "merge" && kind != "mm" {
+		return false
+	}
+	i1, i2 := strings.LastIndex(r1, ":"), strings.LastIndex(r2, ":")
+	if i1 < 0 || i2 < 0 || r1[:i1] != r2[:i2] {
+		return false
+	}
+	v1, ok1 := decodeStd(unhx(r1[i1+1:]))
+	v2, ok2 := decodeStd(unhx(r2[i2+1:]))
+	return ok1 && ok2 && reflect.DeepEqual(v1, v2)
+}
+
 // historyStream: sequences of calls over shared inputs; each result is compared with the result of
 // the same call issued first on a fresh pool of inputs (solo), inputs are snapshotted around calls
 func historyStream(n int) {
@@ -1007,9 +1027,11 @@ func historyStream(n int) {
 		}
 		// the same calls again, in reverse order
 		differs := -1
+		differsRes := ""
 		for i := k - 1; i >= 0; i-- {
-			if r := calls[i].run(); r != res[i] && differs < 0 {
+			if r := calls[i].run(); !sameResult(calls[i].kind, r, res[i]) && differs < 0 {
 				differs = i
+				differsRes = r
 			}
 		}
 		for i, c := range calls {
@@ -1017,7 +1039,12 @@ func historyStream(n int) {
 			f = append(f, kv{"res", res[i]})
 			emit("hcall", f...)
 		}
-		emit("history", kv{"hist", fmt.Sprint(h)}, kv{"calls", fmt.Sprint(k)}, kv{"mutated_at", fmt.Sprint(mutated)}, kv{"differs_at", fmt.Sprint(differs)})
+		hf := []kv{{"hist", fmt.Sprint(h)}, {"calls", fmt.Sprint(k)}, {"mutated_at", fmt.Sprint(mutated)}, {"differs_at", fmt.Sprint(differs)}}
+		if differs >= 0 {
+			hf = append(hf, calls[differs].describe(p)...)
+			hf = append(hf, kv{"first", res[differs]}, kv{"again", differsRes})
+		}
+		emit("history", hf...)
 	}
 }
 
@@ -1043,7 +1070,7 @@ func concurrentStream(n int, goroutines int) {
 				defer wg.Done()
 				bad[gi] = -1
 				for _, i := range order {
-					if r := calls[i].run(); r != solo[i] && bad[gi] < 0 {
+					if r := calls[i].run(); !sameResult(calls[i].kind, r, solo[i]) && bad[gi] < 0 {
 						bad[gi] = i
 					}
 				}
